@@ -95,6 +95,9 @@ def main(tier):
     import c16_sched, mclib
     try:
         sched = c16_sched.sched_part(chk, tier)      # Matrix.fill_coverage adds schedules/states/transitions to chk.cov
+    except mclib.PipelineFailure as e:
+        mclib.report_pipeline_failure(chk, e, 'bin/check C16 quick')
+        return chk.finish()
     except mclib.MachineryError as e:
         print('MACHINERY-ERROR C16: %s' % e)
         return 2
